@@ -135,11 +135,30 @@ def outcomeToken (s : Stream) (r : Req) (bs : BodySize) : String :=
   | none => "no-outcome"
   | some o => wireToken o (r.cut == "full") (!r.big) bs
 
+/-- which timer of a stalled exchange fires first -/
+def stallAlts (ft bt : Nat) (p : List Ev) : List (List Ev) :=
+  if bt < ft then [p ++ [.timeoutBack]]
+  else if ft < bt then [p ++ [.timeoutFront true]]
+  else [p ++ [.timeoutBack], p ++ [.timeoutFront true]]
+
+/-- cluster `fltk`: the 502/503/504 answers are keep-alive, the client connection and the
+    frontend session survive; what is left of the backend connection is what the model's
+    `pooledAfter` says about the last event -/
+def survive (r : Req) (es : List Ev) (tok : String) : String × Situation :=
+  let s := run cfgH1 Stream.init es.dropLast
+  let pooled := match es.getLast? with
+    | some e => pooledAfter cfgH1 s e
+    | none => false
+  let tok' := if tok.startsWith "default:" then (tok.dropEnd "closed".length).toString ++ "open" else tok
+  let bc : BackConn := if pooled then (if r.endA == "stall" then .stalled else .idle) else .fresh
+  (tok', (tok.startsWith "default:", bc))
+
 /-- all (token, situation afterwards) pairs the model admits for a request in a situation -/
-def admit (r : Req) (sit : Situation) : Option (List (String × Situation)) :=
+def admit (ft bt : Nat) (r : Req) (sit : Situation) : Option (List (String × Situation)) :=
   let closed : Situation := (false, .fresh)
   let one (es : List Ev) (bs : BodySize := .empty) : String × Situation :=
-    (outcomeToken (run cfgH1 Stream.init es) r bs, closed)
+    let tok := outcomeToken (run cfgH1 Stream.init es) r bs
+    if r.route == "fltk" then survive r es tok else (tok, closed)
   if r.client == "stallhead" then
     some [one [.timeoutFront true]]
   else if r.client != "full" then none
@@ -155,11 +174,14 @@ def admit (r : Req) (sit : Situation) : Option (List (String × Situation)) :=
       let attempt : List Ev := [.connect (.linked 1), .backHup]
       some [one ([.reqParsed true] ++ attempt ++ attempt ++ attempt ++ [.connect (.linked 1)]),
             one ([.reqParsed true] ++ attempt ++ [.connect (.err .noBackend)])]
-    | "flt" =>
+    | "flt" | "fltk" =>
       let p := linkedPrefix ++ [Ev.reqForwarded]
       -- a keep-alive backend connection whose peer stopped reading: no response ever
       if sit.1 && sit.2 == .stalled then
-        some [one (p ++ [.timeoutBack]), one (p ++ [.timeoutFront true])]
+        -- if this exchange parks the connection again, its peer is still the stalled one
+        some ((stallAlts ft bt p).map fun es =>
+          let (t, s) := one es
+          (t, (s.1, if s.2 == .idle then .stalled else s.2)))
       else if r.shape == "garbage" then
         some [one (p ++ [.backParseError])]
       else
@@ -176,7 +198,7 @@ def admit (r : Req) (sit : Situation) : Option (List (String × Situation)) :=
             some (early ++ [one ([.reqParsed true] ++ attempt ++ attempt ++ attempt ++ [.connect (.linked 1)]),
                             one ([.reqParsed true] ++ attempt ++ [.connect (.linked 1), .reqForwarded, .backEof, .backHup])])
           | "none" | "status" | "headers" =>
-            if r.endA == "stall" then some [one (p ++ [.timeoutBack]), one (p ++ [.timeoutFront true])]
+            if r.endA == "stall" || r.endA == "late" then some ((stallAlts ft bt p).map (one ·))
             else some early
           | cut =>
             match headEvents bs cc cut with
@@ -213,10 +235,15 @@ def admit (r : Req) (sit : Situation) : Option (List (String × Situation)) :=
 
 structure DState where
   sits : List Situation := [(false, .fresh)]
+  ft : Nat := 1
+  bt : Nat := 1
 
 def stepLine (st : DState) (line : String) : DState × List String :=
   match words line with
-  | "new" :: _ => ({}, ["ok"])
+  | "new" :: ws =>
+    let m := kvs ws
+    let num (k : String) : Nat := ((look m k).bind String.toNat?).getD 1
+    ({ ft := num "ft", bt := num "bt" }, ["ok"])
   | ["esd", a, b, c, d] =>
     match parseBool a, parseBool b, parseBool c, parseBool d with
     | some a, some b, some c, some d => (st, [decisionStr (endStreamDecision a b c d)])
@@ -249,13 +276,13 @@ def stepLine (st : DState) (line : String) : DState × List String :=
     match parseReq (kvs ws) with
     | none => (st, ["bad-op"])
     | some r =>
-      let results := st.sits.map (admit r)
+      let results := st.sits.map (admit st.ft st.bt r)
       if results.any Option.isNone then (st, ["bad-op"])
       else
         let pairs := (results.filterMap id).flatten
         let toks := dedup (pairs.map (·.1))
         let sits := pairs.foldl (fun acc p => if acc.contains p.2 then acc else acc ++ [p.2]) []
-        ({ sits := if sits.isEmpty then [(false, .fresh)] else sits }, ["adm " ++ ",".intercalate toks])
+        ({ st with sits := if sits.isEmpty then [(false, .fresh)] else sits }, ["adm " ++ ",".intercalate toks])
   | _ => (st, ["bad-op"])
 
 def main : IO Unit := runDriver stepLine {}
